@@ -560,6 +560,76 @@ def rule_r7(repo, run):
                       mod.loc(fn))
 
 
+def rule_r8(repo, run):
+    R = run.rule("C12.R8", "a declaration's own splicers reach the emitter that looks them up: every key an emitter reads is "
+                           "turned into a list of lines and kept by the function node; replacing the top of the block stack "
+                           "is pop followed by push")
+    am = repo.module("ast")
+    gm = repo.module("generate")
+    wc = repo.module("wrapc")
+    sm = repo.module("statements")
+    # keys the emitters read
+    consumed = {}
+    for mn, q in (("wrapf", "Wrapf.wrap_function_impl"), ("wrapp", "Wrapp.wrap_function")):
+        m = repo.module(mn)
+        for x in ast.walk(m.func(q)):
+            if isinstance(x, ast.Subscript) and str(m.seg(x.value)) == "node.splicer" and pyflow.const_str(x.slice):
+                consumed[pyflow.const_str(x.slice)] = "%s.%s" % (mn, q)
+    # the C emitter computes its key from the suffix of the generated variant
+    wfun = wc.func("Wrapc.wrap_function")
+    comp = pat.find(wfun, "splicer_name = statements.compute_name(['c', generated_suffix])")
+    cn = sm.func("compute_name")
+    joins = "char.join(work)" in sm.seg(cn) and "if part" in sm.seg(cn)
+    if not comp or not joins:
+        raise AnalysisError("C12.R8: the C emitter's splicer key (compute_name(['c', generated_suffix])) is no longer recognised")
+    suffixes = set([""])
+    for a in ast.walk(gm.tree):
+        if isinstance(a, ast.Assign) and pyflow.is_name(a.targets[0], "generated_suffix") and pyflow.const_str(a.value) is not None:
+            suffixes.add(pyflow.const_str(a.value))
+    for sfx in sorted(suffixes):
+        consumed["c_" + sfx if sfx else "c"] = "wrapc.Wrapc.wrap_function (generated_suffix %r)" % sfx
+    if len(consumed) < 5:
+        raise AnalysisError("C12.R8: only %d consumed splicer keys found: %s" % (len(consumed), sorted(consumed)))
+    # listified keys
+    ad = am.func("add_declarations")
+    lists = [c for c in ast.walk(ad) if isinstance(c, ast.Call) and pyflow.is_name(c.func, "listify")
+             and "'splicer'" in am.seg(c.args[0]) and len(c.args) == 2 and isinstance(c.args[1], ast.List)]
+    if len(lists) != 1:
+        raise AnalysisError("C12.R8: listify(dct['splicer'], [...]) of add_declarations not found")
+    listed = set(pyflow.const_str(e) for e in lists[0].args[1].elts)
+    for key, who in sorted(consumed.items()):
+        run.check(R, "ast.add_declarations:splicer-keys[%s]" % key, key in listed,
+                  "%s reads node.splicer[%r] but add_declarations only turns %s into lists of lines: the text stays one string "
+                  "and is emitted one character per line" % (who, key, sorted(listed)), am.loc(lists[0]))
+    # the function node keeps what it is given
+    fi = am.func("FunctionNode.__init__")
+    whole = pat.find(fi, "self.splicer = kwargs['splicer']")
+    kept = None
+    if not whole:
+        kept = set()
+        for c in ast.walk(fi):
+            if isinstance(c, ast.Compare) and len(c.ops) == 1 and isinstance(c.ops[0], ast.In) \
+                    and isinstance(c.comparators[0], (ast.List, ast.Tuple, ast.Set)) and "splicer" in am.seg(fi):
+                vals = [pyflow.const_str(e) for e in c.comparators[0].elts]
+                if vals and all(v is not None for v in vals) and set(vals) & set(consumed):
+                    kept.update(vals)
+    for key, who in sorted(consumed.items()):
+        run.check(R, "ast.FunctionNode.__init__:splicer[%s]" % key, whole or (kept is not None and key in kept),
+                  "%s reads node.splicer[%r] but FunctionNode.__init__ only keeps %s of the declaration's splicers: the user's "
+                  "block is silently replaced by the generated default" % (who, key, sorted(kept or [])), am.loc(fi))
+    # _update_splicer_top(name) == _pop_splicer(); _push_splicer(name)
+    um = repo.module("util")
+    up = um.func("WrapperMixin._update_splicer_top")
+    look = pat.find(up, "MV_L = self.splicer_stack[MV_I].setdefault(name, {})")
+    store = pat.find(up, "self.splicer_stack[MV_J] = MV_L2")
+    ok = len(look) == 1 and len(store) == 1 and look[0][1]["I"] == "-2" and store[0][1]["J"] == "-1" \
+        and look[0][1]["L"] == store[0][1]["L2"]
+    run.check(R, "util.WrapperMixin._update_splicer_top:parent-level", ok,
+              "the replacement level must be looked up in the parent of the top (splicer_stack[-2], what a pop followed by a "
+              "push would use) and stored as the new top: looked up below the top itself, every block after a namespace "
+              "is searched under the placeholder and the user's code is never found", um.loc(up))
+
+
 def run(repo, run, tier):
     rule_r1(repo, run)
     rule_r2(repo, run)
@@ -568,3 +638,4 @@ def run(repo, run, tier):
     rule_r5(repo, run)
     rule_r6(repo, run)
     rule_r7(repo, run)
+    rule_r8(repo, run)
